@@ -105,6 +105,7 @@ type AppCallE struct{ Calls []AppOne }
 type AppOne struct {
 	Name string
 	Args []Expr
+	Ident bool // written as an identifier instead of a string literal
 }
 
 type Stmt interface{}
@@ -325,7 +326,11 @@ func (r *renderer) expr(e Expr) {
 			if i > 0 {
 				r.w(" | ")
 			}
-			r.w("@" + strconv.Quote(cl.Name) + "(")
+			if cl.Ident {
+				r.w("@" + cl.Name + "(") // the program is named by an identifier
+			} else {
+				r.w("@" + strconv.Quote(cl.Name) + "(")
+			}
 			r.list(cl.Args)
 			r.w(")")
 		}
